@@ -14,7 +14,9 @@ GradientArborescenceEmitter
 * `gae state` → `jac=0|1 itrs= restarts= resets= theta=`
 
 GradientOperatorEmitter
-* `gop new n= m= mg=0|1 sg= norm=0|1 eps=` → `ok`
+* `gop new n= m= mg=0|1 sg= norm=0|1 eps= [lo=<list> hi=<list>]` (bound entries rational, `-inf`, `inf`;
+  absent = unbounded) → `ok`
+* `gop askdqd <row>…` (perturbed parents; the model clips, stores and returns them) → `ok <row>…`
 * `gop askdqd <parent-row>…` → `ok`
 * `gop telldqd tol=<rat> <jacobian>|<norms>…` → `ok normok=0|1` | `err value`
 * `gop ask <noise-row>…` → `ok <row>…` | `err runtime|value`
@@ -31,7 +33,7 @@ structure St where
   os : Gop.St
 
 def init : St :=
-  ⟨⟨0, 0, 0, .filter, .basic, false, 0, .ascent 0⟩, Gae.init vzero, ⟨0, 0, false, 0, false, 0⟩, Gop.init⟩
+  ⟨⟨0, 0, 0, .filter, .basic, false, 0, .ascent 0⟩, Gae.init vzero, ⟨0, 0, false, 0, false, 0, fun _ => none, fun _ => none⟩, Gop.init⟩
 
 def showErr : Err → String
   | .runtime => "err runtime"
@@ -143,11 +145,24 @@ def gopStep (st : St) (toks : List String) : St × String :=
     match (kv rest "n").bind String.toNat?, (kv rest "m").bind String.toNat?, kv rest "mg",
           (kv rest "sg").bind parseRat, kv rest "norm", (kv rest "eps").bind parseRat with
     | some n, some m, some mg, some sg, some norm, some eps =>
-      ({ st with oc := ⟨n, m, mg = "1", sg, norm = "1", eps⟩, os := Gop.init }, "ok")
+      let lo? : Option (List (Option Rat)) := match kv rest "lo" with
+        | none => some []
+        | some l => parseListWith (fun t => if t = "-inf" then some none else (parseRat t).map some) l
+      let hi? : Option (List (Option Rat)) := match kv rest "hi" with
+        | none => some []
+        | some l => parseListWith (fun t => if t = "inf" then some none else (parseRat t).map some) l
+      match lo?, hi? with
+      | some lo, some hi =>
+        ({ st with oc := ⟨n, m, mg = "1", sg, norm = "1", eps, fun k => lo.getD k none, fun k => hi.getD k none⟩,
+                   os := Gop.init }, "ok")
+      | _, _ => (st, "bad-op")
     | _, _, _, _, _, _ => (st, "bad-op")
   | "askdqd" :: rows =>
     match rows.mapM parseRow with
-    | some ps => ({ st with os := (Gop.step st.oc st.os (.askDqd (ps.map ofList))).1 }, "ok")
+    | some ps =>
+      match Gop.step st.oc st.os (.askDqd (ps.map ofList)) with
+      | (s', .rows rs) => ({ st with os := s' }, showVecs st.oc.n rs)
+      | _ => (st, "bad-op")
     | none => (st, "bad-op")
   | "telldqd" :: tol :: jacs =>
     match (kv [tol] "tol").bind parseRat, jacs.mapM parseJacNorms with
